@@ -28,7 +28,8 @@ Inductive step :=
 | SEnd (consumed : bool)            (* the block ends here: terminator read, or cursor exhausted at the root *)
 | SSkipFor | SSkipBlock | SSkip     (* omitted content or excluded row: only the row type matters *)
 | SDone (s' : fstate)               (* a row handed to _parse_row *)
-| SFor (i : irow) | SBlock (i : irow) | SInsert (i : irow).
+| SFor (i : irow) (x : str) (idx : option str)   (* begin_for with its loop variables *)
+| SBlock (i : irow) | SInsert (i : irow).
 
 (* _is_end_of_block for a row type, and what an untemplated row amounts to *)
 Definition of_kind (bt : btype) (t : rtype) : result cls step :=
@@ -40,8 +41,19 @@ Definition of_kind (bt : btype) (t : rtype) : result cls step :=
   | _ => Ok SSkip
   end.
 
+(* begin_for: the loop variables, or the critical *)
+Definition loop_vars (i : irow) : result cls (str * option str) :=
+  match i_vars i with
+  | [] | [] :: _ => crit ENoLoopVar
+  | x :: rest => Ok (x, match rest with
+                        | [] => None
+                        | [] :: _ => None
+                        | iv :: _ => Some iv
+                        end)
+  end.
+
 (* parse_next_row (templating unless omitted; the inclusion column first), _is_end_of_block,
-   and _parse_row for plain rows *)
+   the loop-variable check of begin_for, and _parse_row for plain rows *)
 Definition visit_row (bt : btype) (omit : bool) (s : fstate) (r : option frow) : result cls step :=
   match r with
   | None => match bt with BRoot => Ok (SEnd false) | _ => crit EUnterminated end
@@ -54,7 +66,7 @@ Definition visit_row (bt : btype) (omit : bool) (s : fstate) (r : option frow) :
       | Ok (Some i) =>
         match i_type i with
         | TEndFor | TEndBlock => of_kind bt (i_type i)
-        | TBeginFor => Ok (SFor i)
+        | TBeginFor => match loop_vars i with Ok xi => Ok (SFor i (fst xi) (snd xi)) | Err e => Err e end
         | TBeginBlock => Ok (SBlock i)
         | TInsert => Ok (SInsert i)
         | _ => match step_row s i with Ok s' => Ok (SDone s') | Err e => Err e end
@@ -86,17 +98,6 @@ Definition is_starting (i : irow) : bool :=
 (* "Interpret the row like a no-op to get the edges" *)
 Definition head_edges (s : fstate) (i : irow) : result cls fstate :=
   if is_starting i then Ok s else parse_noop s (i_edges i) [].
-
-(* begin_for: the loop variables, or the critical *)
-Definition loop_vars (i : irow) : result cls (str * option str) :=
-  match i_vars i with
-  | [] | [] :: _ => crit ENoLoopVar
-  | x :: rest => Ok (x, match rest with
-                        | [] => None
-                        | [] :: _ => None
-                        | iv :: _ => Some iv
-                        end)
-  end.
 
 (* outside the model: a loop variable that shadows a context variable, a loop over nothing *)
 Definition loop_in_scope (s : fstate) (x : str) (idx : option str) (i : irow) : bool :=
@@ -167,12 +168,11 @@ Fixpoint parse_block (fuel : nat) (sheet : str) (pos : nat) (s : fstate) (bt : b
       bind (parse_block f sheet (S pos) s BBlock true) (fun ps => parse_block f sheet (fst ps) (snd ps) bt omit)
     | SSkip => parse_block f sheet (S pos) s bt omit
     | SDone s1 => parse_block f sheet (S pos) s1 bt omit
-    | SFor i =>
-      bind (lift (loop_vars i)) (fun xi =>
-      if negb (loop_in_scope s (fst xi) (snd xi) i) then Err (inj EOutOfScope) else
+    | SFor i x idx =>
+      if negb (loop_in_scope s x idx i) then Err (inj EOutOfScope) else
       bind (lift (head_edges (push_block s) i)) (fun s2 =>
-      bind (iterate (fun st' => parse_block f sheet (S pos) st' BFor false) (fst xi) (snd xi) (i_list i) 0 (S pos, s2))
-           (fun ps => parse_block f sheet (fst ps) (close_loop (snd ps) i (fst xi) (snd xi)) bt omit)))
+      bind (iterate (fun st' => parse_block f sheet (S pos) st' BFor false) x idx (i_list i) 0 (S pos, s2))
+           (fun ps => parse_block f sheet (fst ps) (close_loop (snd ps) i x idx) bt omit))
     | SBlock i =>
       bind (lift (head_edges (push_block s) i)) (fun s2 =>
       bind (parse_block f sheet (S pos) s2 BBlock false)
@@ -491,15 +491,9 @@ Definition liftE {T} (r : result cls T) : result E T := lift E inj r.
 
 (* one _parse_flow call of parse_all_flows *)
 Definition one_flow (st : istate) (d : fdef) (drow : str) (cs : cstate) : result E cstate :=
-  match liftE (flow_ctx st (fd_sheet d) (fd_dsheet d) drow (fd_targs d)) with
-  | Err e => Err e
-  | Ok c =>
-    match run_flow E inj visit (insert_ctx st) fuel (fd_sheet d) c (cs_uu cs) with
-    | Err e => Err e
-    | Ok (uu, recs) =>
-      Ok (mkCS uu (aset (cs_flows cs) (flow_name d drow) (cs_next cs, recs)) (S (cs_next cs)))
-    end
-  end.
+  bind (liftE (flow_ctx st (fd_sheet d) (fd_dsheet d) drow (fd_targs d))) (fun c =>
+  bind (run_flow E inj visit (insert_ctx st) fuel (fd_sheet d) c (cs_uu cs)) (fun ur =>
+  Ok (mkCS (fst ur) (aset (cs_flows cs) (flow_name d drow) (cs_next cs, snd ur)) (S (cs_next cs))))).
 
 (* parse_all_flows, up to add_flow *)
 Definition flows_phase (st : istate) : result E cstate :=
@@ -567,14 +561,8 @@ Definition finish (st : istate) (cs : cstate) : result cls doc :=
 Definition compile_core (E : Type) (inj : cls -> E)
            (visit : str -> nat -> btype -> bool -> fstate -> result E step)
            (fuel : nat) (wbx : workbook) (dm : option (list str)) : result E doc :=
-  match lift E inj (index_phase fuel wbx dm) with
-  | Err e => Err e
-  | Ok st =>
-    match flows_phase E inj visit fuel st with
-    | Err e => Err e
-    | Ok cs => lift E inj (finish st cs)
-    end
-  end.
+  bind (lift E inj (index_phase fuel wbx dm)) (fun st =>
+  bind (flows_phase E inj visit fuel st) (fun cs => lift E inj (finish st cs))).
 
 (* ---------------------------------------------------------------- the concrete compiler *)
 Definition rows_of (wb : workbook) (sheet : str) : list frow :=
